@@ -415,7 +415,7 @@ var rec = ev.New(prop, "handlers-and-client",
 	Require("success", "error", "callback", "unmarshalable", "json-error-text", "plain-error")
 
 func TestHandlersAndClient(t *testing.T) {
-	ev.Rapid(t, "handlers-and-client", 3000, 100000, func(t *rapid.T) {
+	ev.Rapid(t, "handlers-and-client", 3000, 1200000, func(t *rapid.T) {
 		c := Case{Success: rapid.Bool().Draw(t, "success"), Server: rapid.SampledFrom([]string{"Oryx", "srs/3", "", "X Y"}).Draw(t, "server")}
 		if rapid.IntRange(0, 2).Draw(t, "cb") == 0 {
 			c.Callback = rapid.SampledFrom([]string{"cb", "jQuery123_456", "a.b.c", "cb%d", "f%s"}).Draw(t, "cbname")
